@@ -999,7 +999,12 @@ class Consumer(object):
         proc_block_begin = 0
         proc_block_end = proc_block_size
 
-        while proc_block_begin < len(messages) and not self._shuttingdown and self._start_d is not None:
+        while (
+            proc_block_begin < len(messages)
+            and not self._shuttingdown
+            and not self._stopping
+            and self._start_d is not None
+        ):
             msgs_to_proc = messages[proc_block_begin:proc_block_end]
             # Call our processor callable and handle the possibility it returned
             # a deferred...
